@@ -1154,10 +1154,24 @@ def rule_lazy_latch(ctx):
                     key = (strip_targs(node["c"][0].get("owner") or ""), node["c"][0].get("member"))
                     if key in bool_fields and not ctor:
                         bool_fields[key]["set"].setdefault("computed", []).append(m)
+    # a member nobody reads cannot influence an answer
+    read = set()
+    for c in sorted(family):
+        for m in fx.methods_of(c):
+            if m.body is None:
+                continue
+            lhs_ids = {node["c"][0]["id"] for node in m.walk()
+                       if node.get("k") in ("BinaryOperator", "CompoundAssignOperator") and node.get("op") == "="
+                       and node.get("c") and node["c"][0].get("k") == "MemberExpr"}
+            for node in m.walk():
+                if node.get("k") == "MemberExpr" and node.get("mk") == "field" and node["id"] not in lhs_ids and F.is_this_field(node):
+                    read.add((strip_targs(node.get("owner") or ""), node.get("member")))
     for (c, f), info in sorted(bool_fields.items()):
         sets = info["set"]
         if not sets:
             continue            # configuration fixed at construction: nothing to return to
+        if (c, f) not in read:
+            continue            # written but never read: dead, harmless
         n += 1
         consts = {v for v in sets if v != "computed"}
         ok = "computed" in sets or len(consts) == 2 or bool(info.get("config"))
